@@ -606,8 +606,13 @@ class MetadataManager:
         if not text:
             return None
         if text.isdigit():
-            # Legacy format: plain version number -> legacy filename
-            return int(text), f"v{text}.metadata.json"
+            # Legacy format: plain version number -> legacy filename.
+            # str.isdigit() also accepts characters int() rejects (e.g. a
+            # superscript two): such content is garbage, not a version.
+            try:
+                return int(text), f"v{text}.metadata.json"
+            except ValueError:
+                return None
         m = _METADATA_FILE_RE.match(text)
         if m:
             return int(m.group(1)), text
